@@ -76,6 +76,10 @@ def run_enum(pid, tier):
         if it.get("repr", {}).get("int") != base:
             problems.append(f"repr({it.get('repr', {}).get('int')}) instead of repr({base})")
         want = [num(v) for v in oracle["expected"]]
+        # represented as the base type: the size/alignment pyxis resolved for it are the base type's
+        ent = next((e for e in obs.get("reg", []) if e["path"] == ["m", "E"]), None)
+        if ent is None or ent["st"] != "R" or ent["res"]["size"] != SIZES[base] or ent["res"]["align"] != SIZES[base]:
+            problems.append(f"pyxis resolved size/align {ent and ent['res'].get('size')}/{ent and ent['res'].get('align')} for an enum over {base}")
         for tgt in pl.targets_for(ptr):
             if cid in pl.cfail[tgt]:
                 problems.append(f"the emitted enum does not compile under {tgt}: {pl.cfail[tgt][cid]}")
